@@ -218,3 +218,52 @@ def prelude(op, a, evaluate, k=8, gc_every=64):
         import gc
         gc.collect()
     return True
+
+
+# ----------------------------------------------------------------------------- extension (hardener hg2)
+def scrub(x, depth=3):
+    """destroy a container the library returned (after its answer has been formatted): lists, dicts and sets
+    are emptied, recursively through tuples; if the library handed out one of its own tables instead of a copy
+    the next evaluation of the same call shows it.  Never raises."""
+    try:
+        if depth <= 0:
+            return
+        if isinstance(x, (list, tuple)):
+            for y in list(x):
+                scrub(y, depth - 1)
+        if isinstance(x, dict):
+            for y in list(x.values()):
+                scrub(y, depth - 1)
+        if isinstance(x, (list, dict, set)) and type(x) in (list, dict, set):
+            x.clear()
+    except Exception:  # pylint: disable=broad-except
+        pass
+
+
+def ghosts(objs, k=12, generation=0):
+    """id()-keyed state: for every object of the line create k short-lived siblings of the same kind and size
+    but with DIFFERENT values, use them (hash, rank, a search), drop them and collect (they hold no reference
+    cycles, so reference counting frees them at once; the young-generation collection is for good measure, a
+    full one costs milliseconds per line); whatever is allocated next may get their addresses.  Results and
+    exceptions are discarded."""
+    import gc
+    for o in objs:
+        try:
+            cls = type(o)
+            if hasattr(o, "shading") and hasattr(o, "pattern"):
+                n = len(o.pattern)
+                gs = [cls(o.pattern, frozenset(o.shading) ^ {(i % (n + 1), (i // (n + 1)) % (n + 1))}) for i in range(k)]
+            elif is_perm(o) and len(o) >= 2:
+                t = tuple(o)
+                gs = [cls(t[i % len(t):] + t[:i % len(t)]) for i in range(1, k + 1)]
+            else:
+                continue
+            for g in gs:
+                quiet(hash, g)
+                quiet(lambda g=g: g.rank() if len(g) <= 12 else None)
+                sip(lambda g=g: g.occurrences_in(g if is_perm(g) else g.pattern))
+                quiet(str, g)
+            del gs, g
+        except Exception:  # pylint: disable=broad-except
+            pass
+    gc.collect(generation)
